@@ -1,6 +1,8 @@
 """C18 - targeton regions tile the reference range and are reported as such."""
 from __future__ import annotations
 
+import copy
+
 import json
 
 from .. import common, gen, sge
@@ -153,7 +155,7 @@ def files(ctx: Ctx):
     # targetons on two contigs (no annotation / PAM / custom files: those are per-transcript features)
     for i in range(n // 4):
         d = gen.gen_sge(ctx.rng, {'p_gtf': 0.0, 'p_pam': 0.0, 'p_custom': 0.0, 'n_targetons': 2})
-        c2 = gen.rand_dna(ctx.rng, 80)
+        c2 = gen.rand_dna(ctx.rng, 80 if i % 3 else len(d['ref']))
         d['extra_contigs'] = {'chr2': c2}
         s = ctx.rng.randint(2, 30)
         e = s + ctx.rng.randint(5, 40)
@@ -162,6 +164,12 @@ def files(ctx: Ctx):
         t2 = {'contig': 'chr2', 'ref_start': s, 'ref_end': e, 'r2_start': p, 'r2_end': q,
               'ext': [ctx.rng.randint(0, p - s), ctx.rng.randint(0, e - q)], 'action': ['', 'snv', ''], 'sgrna': []}
         pos = ctx.rng.randint(0, len(d['targetons']))
+        if i % 3 == 0:
+            # the same coordinates on both contigs in consecutive rows (each must be cut from its own contig)
+            t1 = d['targetons'][min(pos, len(d['targetons']) - 1)]
+            if t1['ref_end'] <= len(c2) - 1:
+                t2 = dict(copy.deepcopy(t1), contig='chr2', sgrna=[])
+                pos = d['targetons'].index(t1) + ctx.rng.choice([0, 1])
         d['targetons'].insert(pos, t2)
         if i % 2 == 0:
             d['opts']['sequences_only'] = True
